@@ -108,3 +108,9 @@ pub fn compare_tight(name: &str, got: f64, want: f64, int: bool, ulps: f64) -> R
         Err(format!("{name}: got {got}, must be within {ulps} ulp of {want}"))
     }
 }
+
+/// Variant of a keyframe list in which the f32 property `a` is replaced by the f64 property `d`
+/// (same positions, easings and f32-representable values), so the f64 path is enumerated too.
+pub fn remap_a_to_d(kfs: &[Kf]) -> Vec<Kf> {
+    kfs.iter().map(|k| Kf { pos: k.pos, a: None, k: k.k, d: k.a.map(|v| v as f64 * 0.5), easing: k.easing }).collect()
+}
